@@ -1,5 +1,7 @@
 import UgoVerif.Proofs.PosLines
 import UgoVerif.Proofs.C16Site
+import UgoVerif.Proofs.ExecAtStartsLoad
+import UgoVerif.Props.C05
 /-
   C16 — runtime errors report the true source locations.
 
@@ -470,12 +472,11 @@ theorem C16_compiled_lines (lab : Nat → Nat) (fns : List CFn) (s : State) (h :
     `Props/C04.load_compiled`: the serializer's loader builds the same state) -/
 def loaded (bc : Compile.Bytecode) : State := Eval.setBytecode (newState #[] #[] #[] 0 0) bc.main 0 bc.constants #[]
 
-/-- **What is still a hypothesis** (control-flow integrity of the VM on compiled code): at every
-    instruction boundary of the run with `vm.err` unset, the offset `ip + 1` at which the next opcode is
-    fetched is ≥ 0 and an instruction start of the current function.  (Needs: jump and try targets
-    are instruction starts — `Props/C05.compile_wf` —, every opcode advances `ip` by its operand
-    width, handlers and finalizers resume at instruction starts.  Tested by the lock-step
-    `vmtrace` stream, which compares (frameIndex, ip, opcode) before every instruction.) -/
+/-- **Control-flow integrity of the VM on compiled code** (a hypothesis in round 3; PROVED in round 4 as
+    `exec_at_starts_compiled` below, from `Proofs/ExecAtStarts*.lean`): at every instruction boundary
+    of the run with `vm.err` unset, the offset `ip + 1` at which the next opcode is fetched is ≥ 0 and
+    an instruction start of the current function.  (Also tested by the lock-step `vmtrace` stream,
+    which compares (frameIndex, ip, opcode) before every instruction.) -/
 def ExecAtStarts (F : FloatOps) (s1 : State) : Prop :=
   ∀ s, Boundary F s1 s → s.err = none → 0 ≤ s.ip + 1 ∧
     ∃ fa c fr, (s.frames[s.curFrame]!).fn = some fa ∧ s.heap[fa]? = some (Cell.fn c fr) ∧
@@ -489,14 +490,14 @@ theorem ExecAtStarts.dispG {F : FloatOps} {s1 : State} (hx : ExecAtStarts F s1) 
   rw [hheap] at hheap'; cases hheap'
   exact hbd
 
-/-- **compiled_run_sites.**  Compile (total compile model), load, run the prologue of `Run` with any
+/-- **compiled_run_sites** with control-flow integrity as a hypothesis (round 3).  Compile (total compile model), load, run the prologue of `Run` with any
     globals and arguments, execute any number of instructions (recovered Go panics included): at
     every instruction boundary, the state in which the next instruction is dispatched
     (`vm.ip++` done) satisfies `UncaughtThrow` when no active frame has a handler: the code memory
     is the compiler's functions, all of them satisfy `FnCov lab`, every frame below the current one
     is suspended at a CALL / CALLNAME instruction START of its function, the dispatched offset is an
     instruction start. -/
-theorem compiled_run_sites (lab : Nat → Nat) (builtins : List (String × Nat)) (disabled : List String)
+theorem compiled_run_sites_of_ExecAtStarts (lab : Nat → Nat) (builtins : List (String × Nat)) (disabled : List String)
     (file : List Ast.Stmt) (hl : Ast.labSs lab file = true) (bc : Compile.Bytecode)
     (hc : compileFile builtins disabled file = .ok bc) (F : FloatOps) (g : V) (args : List V) (s1 : State)
     (hpro : exec (prologue g args) (loaded bc) = (.ok (), s1)) (hx : ExecAtStarts F s1)
@@ -518,7 +519,7 @@ theorem compiled_run_sites (lab : Nat → Nat) (builtins : List (String × Nat))
     dispatched at that boundary, as far as `throw` is entered with the frames below, the current
     function and `vm.ip` as they are at the dispatch (true of every opcode of vm.go by inspection;
     every primitive of the VM model keeps them: `Proofs/VMCallSiteOps.lean`, `ck_*`). -/
-theorem compiled_run_lines (lab : Nat → Nat) (builtins : List (String × Nat)) (disabled : List String)
+theorem compiled_run_lines_of_ExecAtStarts (lab : Nat → Nat) (builtins : List (String × Nat)) (disabled : List String)
     (file : List Ast.Stmt) (hl : Ast.labSs lab file = true) (bc : Compile.Bytecode)
     (hc : compileFile builtins disabled file = .ok bc) (F : FloatOps) (g : V) (args : List V) (s1 : State)
     (hpro : exec (prologue g args) (loaded bc) = (.ok (), s1)) (hx : ExecAtStarts F s1)
@@ -531,8 +532,195 @@ theorem compiled_run_lines (lab : Nat → Nat) (builtins : List (String × Nat))
             lab (recorded (fnList bc) sd (s.frames[i]!) ((s.frames[i]!).ip - 2)).toNat)
         ++ [lab (recorded (fnList bc) sd (s.frames[s.curFrame]!) (s.ip + 1)).toNat] :=
   C16_compiled_lines lab (fnList bc) _
-    (compiled_run_sites lab builtins disabled file hl bc hc F g args s1 hpro hx s hb he hnh)
+    (compiled_run_sites_of_ExecAtStarts lab builtins disabled file hl bc hc F g args s1 hpro hx s hb he hnh)
 
 end compiled
+
+/-! ### 10. control-flow integrity: the VM fetches opcodes only at instruction starts (round 4) -/
+
+section cfi
+open UgoVerif.VM UgoVerif.VM.Cfi UgoVerif.Compile UgoVerif.Proofs.C16 UgoVerif.Props.C05
+
+/-- **exec_at_starts** (`Proofs/ExecAtStartsRun.lean`; the general statement, for ANY code memory):
+    in a run of the VM model that starts at an instruction boundary of well-formed code — `Good s0`:
+    every code a function cell of the heap names satisfies `WfCode` (the stream decodes, the last
+    instruction is RETURN, jump targets and non-zero SETUPTRY operands are instruction starts strictly
+    inside), `ip + 1` is an instruction start of the current function, every frame below resumes at an
+    instruction start, every handler stores instruction starts — the same holds at every
+    instruction boundary (`Boundary`: after any number of instructions of any of the 44 opcodes,
+    calls incl. self tail calls, returns, thrown errors taken by catch / finally handlers of the
+    current or a lower frame, finalizers, recovered Go panics): the next opcode is fetched at an
+    instruction start of the code of the current frame's function.  "Compiled code never executes
+    operand bytes."  No `vm.err` side condition, no fuel. -/
+theorem exec_at_starts (F : FloatOps) {s0 : State} (h0 : Good s0) (s : State) (hb : Boundary F s0 s) :
+    0 ≤ s.ip + 1 ∧ ∃ fa c fr, (s.frames[s.curFrame]!).fn = some fa ∧ s.heap[fa]? = some (Cell.fn c fr) ∧
+      Bd (s.codes[c]!).insts (s.ip + 1).toNat :=
+  UgoVerif.VM.Cfi.exec_at_starts F h0 s hb
+
+/-- one instruction keeps it (`step` ending with `continue`) … -/
+theorem exec_at_starts_step (F : FloatOps) {s s' : State} (h : Good s) (hstep : exec (step F) s = (.ok .next, s')) :
+    Good s' :=
+  ((tq_step F).elim_ok h hstep).2 rfl
+
+/-- … a Go panic at any panic site of any opcode leaves a state from which `handlePanic` reaches an
+    instruction boundary again (or sets `vm.err`) … -/
+theorem exec_at_starts_recover (F : FloatOps) {s s1 s' : State} {msg : String} (h : Good s)
+    (hstep : exec (step F) s = (.error (.panic msg), s1)) (hp : exec (handlePanic msg) s1 = (.ok (), s'))
+    (he : s'.err = none) : Good s' :=
+  (tq_handlePanic msg).elim_ok ((tq_step F).elim_err h hstep) hp he
+
+/-- … and the prologue of `Run` establishes it on a loaded VM -/
+theorem exec_at_starts_after_prologue (g : V) (args : List V) {s s' : State} (h0 : Safe0 s)
+    (h : exec (prologue g args) s = (.ok (), s')) : Good s' :=
+  good_prologue g args h0 h
+
+theorem walk_le_size {a : Array UInt8} {i j : Nat} (h : Walk a i j) (hi : i ≤ a.size) : j ≤ a.size := by
+  induction h with
+  | refl => exact hi
+  | step op h1 h2 h3 h4 ih => exact ih h3
+
+/-- no operand of a SETUPTRY is the end-of-stream offset.  (`Props/C05.compile_wf` proves every such
+    operand is an instruction start OR the end of the stream; that it is never the end — after a try
+    statement the compiler always emits THROW 0, the catch / finally positions are those of emitted
+    SETUPCATCH / SETUPFINALLY instructions — is the open item `TryStrict` of C05, which implies this.) -/
+def TryNotEnd (f : CFn) : Prop :=
+  ∀ p op, Bd f.insts p → f.insts[p]? = some op → op.toNat = Compile.OpSetupTry →
+    readBE f.insts (p + 1) 4 ≠ f.insts.size ∧ readBE f.insts (p + 5) 4 ≠ f.insts.size
+
+theorem tryNotEnd_of_tryStrict {f : CFn} (h : TryStrict f) : TryNotEnd f := by
+  intro p op hbd hop hc
+  obtain ⟨t1, t2⟩ := h p op hbd hop hc
+  have hp := hbd.2
+  refine ⟨?_, by have := t2.2; omega⟩
+  rcases t1 with t1 | t1
+  · omega
+  · have := t1.2; omega
+
+/-- what `Props/C05.compile_wf` (`WFFn`) and `TryNotEnd` say of a compiled function is `WfCode` of its code -/
+theorem wfCode_of_wfFn {cs : Array Const} {nf : Nat} {g : CFn} (h : WFFn cs nf g) (ht : TryNotEnd g) :
+    WfCode (Eval.codeOfCFn g) := by
+  refine ⟨h.decodes, ?_, ?_, ?_⟩
+  · obtain ⟨q, b, h1, h2, h3, h4⟩ := h.ret
+    have : opWidth Compile.OpReturn = 1 := rfl
+    exact ⟨q, b, h1, h2, h3, by rw [this] at h4; exact h4⟩
+  · intro p op hbd hop hc
+    exact h.jump p op hbd hop hc
+  · intro p op hbd hop hc
+    obtain ⟨w1, w2⟩ := h.try_ p op hbd hop hc
+    obtain ⟨n1, n2⟩ := ht p op hbd hop hc
+    have l1 := walk_le_size w1 (Nat.zero_le _)
+    have l2 := walk_le_size w2 (Nat.zero_le _)
+    exact ⟨fun _ => ⟨w1, by show readBE g.insts (p + 1) 4 < g.insts.size; omega⟩,
+      fun _ => ⟨w2, by show readBE g.insts (p + 5) 4 < g.insts.size; omega⟩⟩
+
+/-- the hypothesis on compiler output that is not yet a theorem of C05: no operand of a SETUPTRY — in
+    main or in a function constant — is the end-of-stream offset (`TryNotEnd`; implied by
+    `Props/C05.TryStrict`, `tryNotEnd_of_tryStrict`; checked on real bytecode by the structural scan
+    of the `compilefuzz` stream) -/
+def TryTargetsStrict (bc : Compile.Bytecode) : Prop :=
+  TryNotEnd bc.main ∧ ∀ g, Const.fn g ∈ bc.constants.toList → TryNotEnd g
+
+/-- every function of well-formed bytecode has well-formed code -/
+theorem fnList_wfCode (bc : Compile.Bytecode) (hwf : WF bc) (ht : TryTargetsStrict bc) :
+    ∀ g ∈ fnList bc, WfCode (Eval.codeOfCFn g) := by
+  intro g hg
+  simp only [fnList, List.mem_append, List.mem_singleton] at hg
+  rcases hg with hg | hg
+  · obtain ⟨_, nf, hf⟩ := hwf.2.2 g (mem_fnsOf hg)
+    exact wfCode_of_wfFn hf (ht.2 g (mem_fnsOf hg))
+  · subst hg; exact wfCode_of_wfFn hwf.2.1 ht.1
+
+/-- **exec_at_starts_compiled**: `ExecAtStarts` — the hypothesis of the round-3 theorems — holds for
+    the output of the total compile model (`compile_wf`: builtin table in range, assignment
+    statements have a left-hand side) loaded into a new VM and run by the VM model, given
+    `TryTargetsStrict`. -/
+theorem exec_at_starts_compiled (builtins : List (String × Nat)) (hbi : BuiltinsOK builtins) (disabled : List String)
+    (file : List Ast.Stmt) (hok : Ast.okSs file = true) (bc : Compile.Bytecode)
+    (hc : compileFile builtins disabled file = .ok bc) (ht : TryTargetsStrict bc)
+    (F : FloatOps) (g : V) (args : List V) (s1 : State)
+    (hpro : exec (prologue g args) (loaded bc) = (.ok (), s1)) : ExecAtStarts F s1 := by
+  have hwf := compile_wf builtins hbi disabled file hok bc hc
+  have h0 : Safe0 (loaded bc) := safe0_loaded bc (fnList_wfCode bc hwf ht)
+  have hg : Good s1 := good_prologue g args h0 hpro
+  intro s hb _
+  exact UgoVerif.VM.Cfi.exec_at_starts F hg s hb
+
+/-- a function without SETUPTRY satisfies `TryNotEnd` -/
+theorem tryNotEnd_of_noTry (f : CFn) (h : ∀ b ∈ f.insts.toList, b.toNat ≠ Compile.OpSetupTry) : TryNotEnd f := by
+  intro p op _ hop he
+  have hlt : p < f.insts.size := by
+    rcases Nat.lt_or_ge p f.insts.size with hl | hl
+    · exact hl
+    · rw [Array.getElem?_eq_none hl] at hop; cases hop
+  have hm : op ∈ f.insts.toList := by
+    have : f.insts[p]? = some f.insts[p] := by simp [hlt]
+    rw [this] at hop
+    cases hop
+    exact Array.getElem_mem_toList hlt
+  exact absurd he (h op hm)
+
+theorem exec_ok_of_isOk {m : M Unit} {s : State}
+    (h : (match (exec m s).1 with | .ok _ => true | .error _ => false) = true) :
+    exec m s = (.ok (), (exec m s).2) := by
+  rcases hx : exec m s with ⟨r, s'⟩
+  rw [hx] at h
+  cases r with
+  | ok u => rfl
+  | error e => cases h
+
+/-- non-vacuity of `exec_at_starts_compiled` / `compiled_run_sites`: the demo script compiles, its
+    bytecode satisfies `TryTargetsStrict`, the loaded VM passes the prologue -/
+theorem demo_run : BuiltinsOK [] ∧ Ast.okSs demoFile = true ∧ Ast.labSs (fun p => p / 20) demoFile = true ∧
+    ∃ bc, compileFile [] [] demoFile = .ok bc ∧ TryTargetsStrict bc ∧
+      ∃ s1, exec (prologue .nil []) (loaded bc) = (.ok (), s1) := by
+  refine ⟨by decide, by decide, by decide, _, rfl, ⟨tryNotEnd_of_noTry _ (by decide), ?_⟩, _,
+    exec_ok_of_isOk (by decide +kernel)⟩
+  intro g hg
+  simp [initState] at hg
+
+/-- non-vacuity of `exec_at_starts`: the state after the prologue of the demo run is `Good` -/
+example : ∃ s0 : State, Good s0 := by
+  obtain ⟨hb, hok, _, bc, hc, ht, s1, hp⟩ := demo_run
+  exact ⟨s1, good_prologue _ _ (safe0_loaded bc (fnList_wfCode bc (compile_wf [] hb [] demoFile hok bc hc) ht)) hp⟩
+
+/-- **compiled_run_sites.**  Compile (total compile model), load, run the prologue of `Run` with any
+    globals and arguments, execute any number of instructions (recovered Go panics included): at
+    every instruction boundary, the state in which the next instruction is dispatched
+    (`vm.ip++` done) satisfies `UncaughtThrow` when no active frame has a handler: the code memory
+    is the compiler's functions, all of them satisfy `FnCov lab`, every frame below the current one
+    is suspended at a CALL / CALLNAME instruction START of its function, the dispatched offset is an
+    instruction start.  Control-flow integrity is no longer a hypothesis. -/
+theorem compiled_run_sites (lab : Nat → Nat) (builtins : List (String × Nat)) (hbi : BuiltinsOK builtins)
+    (disabled : List String) (file : List Ast.Stmt) (hok : Ast.okSs file = true) (hl : Ast.labSs lab file = true)
+    (bc : Compile.Bytecode) (hc : compileFile builtins disabled file = .ok bc) (ht : TryTargetsStrict bc)
+    (F : FloatOps) (g : V) (args : List V) (s1 : State)
+    (hpro : exec (prologue g args) (loaded bc) = (.ok (), s1))
+    (s : State) (hb : Boundary F s1 s) (he : s.err = none)
+    (hnh : ∀ i, i ≤ s.curFrame → hasHandler (s.frames[i]!) = false) :
+    UncaughtThrow lab (fnList bc) { s with ip := s.ip + 1 } :=
+  compiled_run_sites_of_ExecAtStarts lab builtins disabled file hl bc hc F g args s1 hpro
+    (exec_at_starts_compiled builtins hbi disabled file hok bc hc ht F g args s1 hpro) s hb he hnh
+
+/-- **compiled_run_lines.**  … hence the reported lines (`C16_compiled_lines`) for an error raised by
+    the instruction dispatched at that boundary (as far as `throw` is entered with the frames below,
+    the current function and `vm.ip` as they are at the dispatch: by inspection of vm.go; every
+    primitive of the VM model keeps them: `Proofs/VMCallSiteOps.lean`, `ck_*`). -/
+theorem compiled_run_lines (lab : Nat → Nat) (builtins : List (String × Nat)) (hbi : BuiltinsOK builtins)
+    (disabled : List String) (file : List Ast.Stmt) (hok : Ast.okSs file = true) (hl : Ast.labSs lab file = true)
+    (bc : Compile.Bytecode) (hc : compileFile builtins disabled file = .ok bc) (ht : TryTargetsStrict bc)
+    (F : FloatOps) (g : V) (args : List V) (s1 : State)
+    (hpro : exec (prologue g args) (loaded bc) = (.ok (), s1))
+    (s : State) (hb : Boundary F s1 s) (he : s.err = none)
+    (hnh : ∀ i, i ≤ s.curFrame → hasHandler (s.frames[i]!) = false) :
+    let sd : State := { s with ip := s.ip + 1 }
+    let t := siteOf (fnList bc) sd
+    ((stackTraceRaw (throwTrace false t.curFn t.curIp t.callers []).1).map fun fp => lab fp.offset.toNat)
+      = ((List.range s.curFrame).map fun i =>
+            lab (recorded (fnList bc) sd (s.frames[i]!) ((s.frames[i]!).ip - 2)).toNat)
+        ++ [lab (recorded (fnList bc) sd (s.frames[s.curFrame]!) (s.ip + 1)).toNat] :=
+  compiled_run_lines_of_ExecAtStarts lab builtins disabled file hl bc hc F g args s1 hpro
+    (exec_at_starts_compiled builtins hbi disabled file hok bc hc ht F g args s1 hpro) s hb he hnh
+
+end cfi
 
 end UgoVerif.Props.C16
